@@ -213,7 +213,11 @@ func min(a, b int) int {
 }
 
 func genDepText(t *rapid.T) DepText {
-	switch rapid.IntRange(0, 9).Draw(t, "src") {
+	switch rapid.IntRange(0, 10).Draw(t, "src") {
+	case 10:
+		// the near-miss corpus of C04: whatever of it a parser (this one, or a more lenient
+		// future one) accepts has to survive rendering like anything else
+		return DepText{genBadDep(t).Text}
 	case 0, 1, 2:
 		return DepText{genDepCase(t).Text}
 	case 3, 4, 5, 6, 7:
@@ -234,7 +238,7 @@ func genDepText(t *rapid.T) DepText {
 
 var specC05Fixpoint = Register(&Spec[DepText]{
 	Prop: "C05", Name: "fixpoint",
-	Rule: "candidate strings from (a) all C04 renderings (ASTs x spacing classes), (b) 1..3 byte-level edits of them (insert/delete/replace/duplicate/splice, biased to the token bytes , | ( ) [ ] < > ! $ { } : blank tab newline and to bytes >= 0x80), (c) token soups and raw bytes; every string dependency.Parse accepts must render to a string that is accepted, parses to a structurally identical value (names, qualifier triple, operator+number, arch list+negation, profile groups, substvar marker; nil == empty), is itself a fixpoint of render, equals MarshalControl, and reads back through UnmarshalControl. Non-trivial: accepted and not already canonical, or containing a substvar, qualifier, wildcard arch, negated list, >=2 profile groups, version constraint or non-ASCII byte; distinct by text.",
+	Rule: "candidate strings from (a) all C04 renderings (ASTs x spacing classes), (b) 1..3 byte-level edits of them (insert/delete/replace/duplicate/splice, biased to the token bytes , | ( ) [ ] < > ! $ { } : blank tab newline and to bytes >= 0x80), (c) token soups and raw bytes, (d) the malformed fields of C04/malformed (substvars followed by clauses, unterminated constructs, doubled clauses ...); every string dependency.Parse accepts must render to a string that is accepted, parses to a structurally identical value (names, qualifier triple, operator+number, arch list+negation, profile groups, substvar marker; nil == empty), is itself a fixpoint of render, equals MarshalControl, and reads back through UnmarshalControl. Non-trivial: accepted and not already canonical, or containing a substvar, qualifier, wildcard arch, negated list, >=2 profile groups, version constraint or non-ASCII byte; distinct by text.",
 	Check: func(c DepText, r *Recorder) error { return checkDepFixpoint(c.S, r) },
 })
 
